@@ -2,7 +2,8 @@
 """Replays every committed fixture in a fresh process.
 
 Fixtures of repaired defects (`fixed:` in known_findings.txt) must no longer fail (exit 0);
-fixtures of recorded-but-not-repaired findings (`known:`) must still reproduce (exit 1).
+fixtures of recorded-but-not-repaired findings (`known:`) must still reproduce: the replay prints
+the KNOWN-FINDING line and exits 0, like the check itself (with RTASIM_KNOWN=/dev/null: exit 1).
 """
 import os
 import subprocess
@@ -20,8 +21,14 @@ def main():
             continue
         r = subprocess.run([os.path.join(VERIF, "check"), "replay", os.path.join(d, name)],
                            stdout=subprocess.PIPE, stderr=subprocess.STDOUT, text=True)
-        want = 1 if name in STILL_FAILING else 0
+        want = 0
         ok = r.returncode == want
+        if name in STILL_FAILING:
+            ok = ok and "KNOWN-FINDING" in r.stdout
+            env = dict(os.environ, RTASIM_KNOWN="/dev/null")
+            r2 = subprocess.run([os.path.join(VERIF, "sim/target/release/rtasim"), "replay", os.path.join(d, name)],
+                                stdout=subprocess.PIPE, stderr=subprocess.STDOUT, text=True, env=env)
+            ok = ok and r2.returncode == 1
         print("%-45s exit %d (expected %d) %s" % (name, r.returncode, want, "ok" if ok else "MISMATCH"))
         if not ok:
             bad += 1
